@@ -13,7 +13,7 @@ import math
 import numpy as np
 from hypothesis import strategies as st
 
-from ..core import Discard, Violation, expect_exact, guard
+from ..core import Discard, Violation, expect_exact, guard, scribble
 from ..runner import Sub
 
 PROPERTY = "C12"
@@ -75,6 +75,7 @@ def strategy(tier):
         "pool": st.lists(_grid_value, min_size=2, max_size=8, unique=True),
         "ctor": ctor,
         "fill_data": st.one_of(st.none(), st.lists(_entry, max_size=6)),
+        "reuse_buffers": st.booleans(),
         "ops": _ops(tier),
     })
 
@@ -155,10 +156,14 @@ def run(case):
     filled = []
     if case.get("fill_data") is not None:
         fd = [_resolve_entry(e, pool, edges) for e in case["fill_data"]]
-        kw["fill_data"] = fd
+        kw["fill_data"] = list(fd)
         filled += fd
     with guard("construct"):
         h = HistContainer(**kw)
+    reuse = bool(case.get("reuse_buffers"))
+    if reuse:
+        labels.add("caller_buffers_overwritten_after_each_call")
+        scribble(kw.get("fill_data"))  # the caller's list lives on and is overwritten: what was filled are the values at the time of the call
 
     def zero_width(ed):
         return any(a == b for a, b in zip(ed[:-1], ed[1:]))
@@ -184,11 +189,13 @@ def run(case):
                     for e in ent:
                         h.fill(e)
             else:
-                arg = ent if how == "list" else (np.array(ent, dtype=float) if how == "array" else tuple(ent))
+                arg = list(ent) if how == "list" else (np.array(ent, dtype=float) if how == "array" else tuple(ent))
                 if not ent:
                     labels.add("empty_fill")
                 with guard("fill"):
                     h.fill(arg)
+                if reuse:
+                    scribble(arg)
             filled += ent
             if read_after_fill and ent:
                 nontrivial_seq = True
